@@ -56,6 +56,8 @@ class Run:
                                                                  str(others[0].what) if others else None))
                     trace["operands"].append(sub[0]["__side"])
                     return (dict(left) if sub[0]["__side"] == "L" else dict(right),)
+            if isinstance(recv, int) and not isinstance(recv, bool) and m in ("and_utc", "timestamp", "naive_utc", "naive_local", "and_local_timezone") and not args:
+                return (recv,)          # instants of a scenario are whole numbers of seconds: conversions between time scales keep them
             if callee.endswith("util::get_extension") and args and isinstance(args[0], str):
                 # std::path::Path::extension by contract: the part of the file name after its last dot; none for a name
                 # without a dot or with its only dot in front (`.env`)
